@@ -225,9 +225,9 @@ def gen_net(rng, n_in=None, n_gates=None, n_ff=None, n_out=None, style=None, fea
     if rng.random() < 0.5:
         rng.shuffle(ports)
     net['io_order'] = ports
-    if 'wiring' in feats and style == 'v':
+    if 'wiring' in feats:
         for s in sigs:
-            net['wiring'][s] = rng.choice(['fork', 'fork', 'direct', 'chain', 'branch'])
+            net['wiring'][s] = rng.choice(['fork', 'fork', 'direct', 'chain', 'branch'] if style == 'v' else ['fork', 'fork', 'chain', 'branch'])
     return net
 
 
@@ -327,8 +327,22 @@ def build(net):
             forks[sig] = f
             if sig in drivers:
                 mkline(drivers[sig], f, sig)
-            for (n, p) in rds:
-                mkline(f, (n, p), sig)
+            if mode == 'chain' and rds:
+                f2 = Node(c, sig + '~c')
+                mkline(f, f2, sig)
+                k = len(rds) // 2
+                for (n, p) in rds[:k]:
+                    mkline(f, (n, p), sig)
+                for (n, p) in rds[k:]:
+                    mkline(f2, (n, p), sig)
+            elif mode == 'branch' and rds:
+                for (n, p) in rds:
+                    bf = Node(c, f'{sig}~{n.name}/{p}')
+                    mkline(f, bf, sig)
+                    mkline(bf, (n, p), sig)
+            else:
+                for (n, p) in rds:
+                    mkline(f, (n, p), sig)
             continue
         if mode == 'direct' and len(rds) == 1:
             mkline(drivers[sig], rds[0], sig)
